@@ -15,8 +15,6 @@ import (
 	"google.golang.org/protobuf/types/descriptorpb"
 )
 
-const sigOneofLastWins = "oneoffields-last-wins"
-const sigEndWraps = "fieldranges-end-minint32-wraps"
 
 // walker checks every view of every descriptor of one file.
 type walker struct {
@@ -26,8 +24,7 @@ type walker struct {
 	fdp    string // hex of the FileDescriptorProto (computed on first failure)
 	ndesc  int
 
-	mkInput     func(at string, detail any) replayIn // overrides the replay input (directly constructed lists)
-	propertyOff bool                                 // compare with the model only
+	mkInput func(at string, detail any) replayIn // overrides the replay input (directly constructed lists)
 }
 
 func (w *walker) input(at string, detail any) replayIn {
@@ -191,9 +188,9 @@ func (w *walker) children(parent protoreflect.Descriptor, view string, depth int
 
 // lookups checks one keyed table of one list. keysOf(i) are the keys element i contributes; by(key)
 // is the accessor under test; the expected answer is the FIRST element carrying the key.
-// lastWinsModel marks OneofFields (modelled last-wins, as coded).
+// oneofView marks OneofFields (one key per member and table, no alias keys; first-wins).
 func (w *walker) lookups(at, table string, n int, get func(int) protoreflect.Descriptor, keysOf func(int) []string,
-	by func(string) protoreflect.Descriptor, extraProbes []string, lastWinsModel bool) {
+	by func(string) protoreflect.Descriptor, extraProbes []string, oneofView bool) {
 	keys := make([][]string, n)
 	probeSet := map[string]struct{}{}
 	var probes []string
@@ -255,20 +252,9 @@ func (w *walker) lookups(at, table string, n int, get func(int) protoreflect.Des
 		} else {
 			implAns[pi] = strconv.Itoa(pos)
 		}
-		if pos != first && !w.propertyOff {
-			if lastWinsModel && cnt >= 2 && pos == last {
-				// the known finding (DESIGN 11): classified by view = OneofFields, >= 2 members share the key,
-				// and the answer is the last of them. Reported a few times per run, counted always.
-				w.c.Hist("seen:" + sigOneofLastWins + ":" + table)
-				if w.c.R.Histogram["reported:"+sigOneofLastWins] < 3 {
-					w.c.Hist("reported:" + sigOneofLastWins)
-					w.check(false, "OneofFields."+table+" returns the LAST member carrying the key; the first element with that key is an earlier member (Message.Fields()."+table+" returns the first)",
-						at, map[string]any{"table": table, "key": p, "keys": keys, "returned": pos, "first": first}, sigOneofLastWins)
-				}
-			} else {
-				w.check(false, fmt.Sprintf("%s(%q) returned element %s, the first element with that key is %d", table, p, implAns[pi], first),
-					at, map[string]any{"table": table, "key": p, "keys": keys}, "")
-			}
+		if pos != first {
+			w.check(false, fmt.Sprintf("%s(%q) returned element %s, the first element with that key is %d", table, p, implAns[pi], first),
+				at, map[string]any{"table": table, "key": p, "keys": keys, "last-with-key": last, "members-with-key": cnt}, "")
 		}
 	}
 	if !w.c.HasModel() || n == 0 {
@@ -279,12 +265,12 @@ func (w *walker) lookups(at, table string, n int, get func(int) protoreflect.Des
 		ptoks[i] = keyTok(p)
 	}
 	var ans string
-	if lastWinsModel {
+	if oneofView {
 		etoks := make([]string, n)
 		for i := range keys {
 			etoks[i] = keyTok(keys[i][0])
 		}
-		ans = w.c.Ask("last %d %s %s", len(probes), strings.Join(ptoks, " "), strings.Join(etoks, " "))
+		ans = w.c.Ask("oneof %d %s %s", len(probes), strings.Join(ptoks, " "), strings.Join(etoks, " "))
 	} else {
 		etoks := make([]string, n)
 		for i := range keys {
@@ -420,7 +406,7 @@ func fdOrNil(d protoreflect.FieldDescriptor) protoreflect.Descriptor {
 }
 
 // fieldLookups checks the four tables of a FieldDescriptors view.
-func (w *walker) fieldLookups(at string, fs protoreflect.FieldDescriptors, lastWinsModel bool) {
+func (w *walker) fieldLookups(at string, fs protoreflect.FieldDescriptors, oneofView bool) {
 	n := fs.Len()
 	get := func(i int) protoreflect.Descriptor { return fs.Get(i) }
 	names := make([]string, n)
@@ -434,13 +420,13 @@ func (w *walker) fieldLookups(at string, fs protoreflect.FieldDescriptors, lastW
 		texts = append(texts, f.TextName())
 	}
 	one := func(ks []string) []string {
-		if lastWinsModel { // OneofFields registers exactly one key per table
+		if oneofView { // OneofFields registers exactly one key per table
 			return ks[:1]
 		}
 		return ks
 	}
 	w.lookups(at, "ByName", n, get, func(i int) []string { return []string{names[i]} },
-		func(k string) protoreflect.Descriptor { return fdOrNil(fs.ByName(protoreflect.Name(k))) }, nameProbes(names), lastWinsModel)
+		func(k string) protoreflect.Descriptor { return fdOrNil(fs.ByName(protoreflect.Name(k))) }, nameProbes(names), oneofView)
 	w.lookups(at, "ByNumber", n, get, func(i int) []string { return []string{numStr(nums[i])} },
 		func(k string) protoreflect.Descriptor {
 			v, ok := parseNum(k)
@@ -448,11 +434,11 @@ func (w *walker) fieldLookups(at string, fs protoreflect.FieldDescriptors, lastW
 				return nil
 			}
 			return fdOrNil(fs.ByNumber(protoreflect.FieldNumber(v)))
-		}, numberProbes(nums), lastWinsModel)
+		}, numberProbes(nums), oneofView)
 	w.lookups(at, "ByJSONName", n, get, func(i int) []string { return one(jsonKeys(fs.Get(i))) },
-		func(k string) protoreflect.Descriptor { return fdOrNil(fs.ByJSONName(k)) }, append(nameProbes(jsons), names...), lastWinsModel)
+		func(k string) protoreflect.Descriptor { return fdOrNil(fs.ByJSONName(k)) }, append(nameProbes(jsons), names...), oneofView)
 	w.lookups(at, "ByTextName", n, get, func(i int) []string { return one(textKeys(fs.Get(i))) },
-		func(k string) protoreflect.Descriptor { return fdOrNil(fs.ByTextName(k)) }, append(nameProbes(texts), names...), lastWinsModel)
+		func(k string) protoreflect.Descriptor { return fdOrNil(fs.ByTextName(k)) }, append(nameProbes(texts), names...), oneofView)
 }
 
 func (w *walker) fields(m protoreflect.MessageDescriptor, depth int) {
@@ -764,27 +750,8 @@ func (w *walker) fieldRanges(at, view string, fr protoreflect.FieldRanges) {
 			}
 		}
 		got[i] = fr.Has(protoreflect.FieldNumber(p))
-		if got[i] != exp {
-			// classifier of the known finding: a stored end of MinInt32 makes fieldRange.End() = r[1]-1 wrap to
-			// MaxInt32, so Has answers true for every n >= start although the listed range is empty
-			wrapped := false
-			for _, r := range list {
-				if r[1] == math.MinInt32 && r[0] <= p && got[i] && !exp {
-					wrapped = true
-				}
-			}
-			if wrapped {
-				w.c.Hist("seen:" + sigEndWraps)
-				if w.c.R.Histogram["reported:"+sigEndWraps] < 2 {
-					w.c.Hist("reported:" + sigEndWraps)
-					w.check(false, view+".Has(n) = true for n >= start of a listed range whose stored end is MinInt32 (End() = r[1]-1 wraps to MaxInt32); the listed range [start, MinInt32) is empty",
-						at+" "+view, map[string]any{"list": list, "n": p}, sigEndWraps)
-				}
-				continue
-			}
-			w.check(false, fmt.Sprintf("%s.Has(%d) = %v, membership in the listed ranges (end exclusive) = %v", view, p, got[i], exp),
-				at+" "+view, map[string]any{"list": list, "n": p}, "")
-		}
+		w.check(got[i] == exp, fmt.Sprintf("%s.Has(%d) = %v, membership in the listed ranges (end exclusive) = %v", view, p, got[i], exp),
+			at+" "+view, map[string]any{"list": list, "n": p}, "")
 	}
 	if w.c.HasModel() && n > 0 {
 		ans := w.c.Ask("fhas %d %s %s", len(probes), probeToks(probes), rangeToks(list))
